@@ -66,6 +66,9 @@ CHECKS = {
     'C17': dict(engine='Launcher', technique='TLA+ Launcher: operational mirror of ProcessLauncher.__call__/_launch/_continue/_create over an abstract persister, 8 invariants + 7 action properties (CreateOK, LaunchOK, ContinueOK, NowaitReply, RejectOK, LoaderUsed ...), TLC over every history of <=K tasks; every behaviour replayed on the real launcher (direct and through controllers + LoopCommunicator)',
                 text='Histories of <=2 (3 thorough) create/launch/continue/unknown tasks x persist x nowait x tag x 3 process classes x {no, in-memory, pickle} persister x {default, custom} loader; replies, persister content, constructed processes and their step traces, loader resolutions compared after every action.',
                 ref='5 C17', note='Trusted base: TLC, harness/launcher_real.py (in-process communicator with kiwipy.rmq conventions).'),
+    'C18': dict(engine='Scope', technique='TLA+ Scope: contexts (copy at task creation / call_soon), tasks, ready queue, process programs with awaits, children, call_soon, nested execute; TLC exhaustive (CurrentIsRunning, Restored, Balanced, DefaultIntact) over completion orders; every behaviour replayed on real processes (vloop in-process, nested execution in child interpreters on the nest_asyncio loop)',
+                text='<=2 (3-5 thorough) processes with <=2 await points, a launched child, call_soon callbacks, control calls, re-entrant execute; Process.current() sampled in step bodies, 16 lifecycle hooks, listeners and callbacks, plus an observer between handles.',
+                ref='5 C18', note='Trusted base: TLC, harness/scope_real.py, nest_asyncio 1.6 batch semantics for the idle mode.'),
     'C20': dict(engine='Adapters', technique='TLA+ Adapters (futures, ready queue, synchronous kiwipy callbacks), TLC exhaustive (Faithful, ExactlyOnce, ActionOnce, Stable) + replay of every behaviour on the real adapters + validation of message_receive traces',
                 text='Chains of futures resolving to futures to depth 2 (4 thorough), every outcome at every level in every completion order, for create_task, plum_to_kiwi_future, unwrap_kiwi_future, their composition, convert_to_comm, _schedule_rpc replies and CancellableAction histories.',
                 ref='5 C20', note='Trusted base: TLC, harness/vloop.py, harness/adapters_real.py. Real cross-thread delivery is not explored.'),
@@ -94,6 +97,7 @@ m = {
         {'name': 'Savable', 'path': 'spec/Savable.tla', 'serves_properties': ['C19'], 'kind_free_text': 'explicit TLA+ spec of Savable save/load over a heap model'},
         {'name': 'Ports', 'path': 'spec/Ports.tla', 'serves_properties': ['C11', 'C12'], 'kind_free_text': 'explicit TLA+ spec of port trees: pre_process/validate/out (operational vs declarative)'},
         {'name': 'Launcher', 'path': 'spec/Launcher.tla', 'serves_properties': ['C17'], 'kind_free_text': 'explicit TLA+ spec of ProcessLauncher tasks over an abstract persister'},
+        {'name': 'Scope', 'path': 'spec/Scope.tla', 'serves_properties': ['C18'], 'kind_free_text': 'explicit TLA+ spec of the context-local process stack'},
         {'name': 'Adapters', 'path': 'spec/Adapters.tla', 'serves_properties': ['C20'],
          'kind_free_text': 'explicit TLA+ specification of the future adapters and CancellableAction'},
     ],
